@@ -258,6 +258,26 @@ def run(ctx):
             pe = presence_edges(co, bb)
             gates = any(co.path([a[1]], pn, avoid_edges=set(pe["present"]), avoid_blocks=loop_heads(co)) for a in pe["absent"])
             rep.check(gates, "C14.R4", "check_op:%s:miss-panics" % tf, "an undeclared %s target reaches panic_any" % tf, "a miss on %s does not reach panic_any" % setf, site=co.loc())
+    # the warp check runs for EVERY op that names a warp (instance ops included): the only way past the `op_warp != self.warp_id`
+    # comparison to a normal return is the `op_warp == None` arm
+    ogc = co.origins()
+    cw_blocks = []
+    for (bb_, kind_, a_, b_, res_, line_) in comparisons(co):
+        ta_, tb_ = tokens_of_atoms(ogc.of_operand(a_, deep=True)), tokens_of_atoms(ogc.of_operand(b_, deep=True))
+        if ("f:op_warp" in ta_ and "f:warp_id" in tb_) or ("f:op_warp" in tb_ and "f:warp_id" in ta_):
+            cw_blocks.append(bb_)
+    none_edges = []
+    for bi_, b_ in enumerate(co.blocks):
+        for st_ in b_["st"]:
+            if st_[0] == "a" and st_[2]["r"] == "disc" and any(x[2] == "op_warp" for x in field_steps(st_[2]["p"])):
+                for bj_, bb2 in enumerate(co.blocks):
+                    t2 = bb2["t"]
+                    if t2["t"] == "sw" and op_place(t2["o"]) is not None and op_place(t2["o"])[0] == st_[1][0]:
+                        vals = {v: tg for v, tg in t2["v"]}
+                        none_edges.append((bj_, vals.get("0", t2["ow"])))
+    w_ = co.path([0], co.return_blocks(), avoid_blocks=cw_blocks, avoid_edges=set(none_edges)) if cw_blocks else [0]
+    rep.check(bool(cw_blocks) and w_ is None, "C14.R4", "check_op:warp-check-unconditional", "every op that names a warp is compared with the guard's warp before check_op returns",
+              "check_op can return without comparing the op's warp with the guard's warp although the op names one (%s): an op aimed at another warp instance is accepted" % co.describe_path(w_), site=co.loc())
     live = constructed_variants([co], FG + "ViolationKind")
     for v in ("UnauthorizedInstanceOp", "CrossWarpEmission", "OpWarpUnknown", "NodeWriteNotDeclared", "EdgeWriteNotDeclared", "AttachmentWriteNotDeclared"):
         rep.check(v in live, "C14.R4", "check_op:live:%s" % v, "gate present", "check_op no longer raises ViolationKind::%s" % v, site=co.loc())
